@@ -9,6 +9,9 @@ An abstract *program* is ``{"templates": {name: {"extends": [parent names], "nod
                                                                in the same block body)
     ["super"]                                {{ block.super }}
     ["for", [nodes]]                         {% for i in (1..2) %}...{% endfor %}
+    ["if", [nodes]]                          {% if true %}...{% endif %}            (always taken)
+    ["unless", [nodes]]                      {% unless false %}...{% endunless %}   (always taken)
+    ["case", [nodes]]                        {% case 1 %}{% when 1 %}...{% endcase %} (always taken)
     ["block", name, required, [nodes], endname]   endname None = bare {% endblock %}
 
 The real engine only ever sees ``print_program(prog)``; the resolver below only ever sees
@@ -26,7 +29,10 @@ Provenance of every clause (S = property statement C18, D = /repo/docs/optional_
   "must have a name that is unique to the template", "the endblock name must match") -- "rejected" is
   read as "a LiquidError is raised instead of output"; the class is not fixed by S or D.
 * render data is visible inside blocks (D: ``Hello, {{ you }}!`` in an overriding block); a ``for`` loop
-  renders its body once per item (standard Liquid, tag_reference.md).
+  renders its body once per item, ``if true`` / ``unless false`` / ``case 1 when 1`` render their body
+  (standard Liquid, tag_reference.md).  A block that sits alone inside such a tag is still "replaced by
+  its most-derived definition" (S) -- whether the definition written in that template is empty says
+  nothing about what is rendered there.
 
 Unspecified (excluded and counted, never guessed):
 
@@ -38,7 +44,12 @@ Unspecified (excluded and counted, never guessed):
 * a loop variable used across a block boundary (scoping of blocks is not documented);
 * resolution that re-enters a definition that is still being rendered (infinite by the statement's
   own rules: no output is defined);
-* more than one error shape in one program.
+* more than one error shape in one program;
+* the exact output of a definition whose body is nothing but whitespace text, when that definition is the
+  one rendered (selected or through super): S says "replaced by its definition" (the whitespace), the
+  engine's ``suppress_blank_control_flow_blocks`` (environment.md lists the flag, nothing says whether an
+  inheritance block counts) drops it.  Such definitions are generated as placeholders; cases that render
+  one are excluded, cases that override it are judged.
 """
 
 from __future__ import annotations
@@ -48,6 +59,11 @@ from typing import Optional
 
 DATA = {"x": "X"}
 LOOP_ITEMS = ("1", "2")  # rendering of (1..2)
+WRAPPERS = ("for", "if", "unless", "case")  # tags whose body is a node list (conditions always true)
+
+
+def whitespace_only(body: Any) -> bool:
+    return len(body) > 0 and all(n[0] == "text" and n[1].isspace() for n in body)
 
 
 # ---------------------------------------------------------------------------
@@ -67,6 +83,12 @@ def print_nodes(nodes: Any) -> str:
             out.append("{{ block.super }}")
         elif k == "for":
             out.append("{% for i in (1..2) %}" + print_nodes(n[1]) + "{% endfor %}")
+        elif k == "if":
+            out.append("{% if true %}" + print_nodes(n[1]) + "{% endif %}")
+        elif k == "unless":
+            out.append("{% unless false %}" + print_nodes(n[1]) + "{% endunless %}")
+        elif k == "case":
+            out.append("{% case 1 %}{% when 1 %}" + print_nodes(n[1]) + "{% endcase %}")
         elif k == "block":
             _, name, required, body, endname = n
             out.append(
@@ -96,7 +118,7 @@ def blocks_preorder(nodes: Any) -> list[Any]:
         if n[0] == "block":
             out.append(n)
             out.extend(blocks_preorder(n[3]))
-        elif n[0] == "for":
+        elif n[0] in WRAPPERS:
             out.extend(blocks_preorder(n[1]))
     return out
 
@@ -105,7 +127,7 @@ def has_super_outside_block(nodes: Any) -> bool:
     for n in nodes:
         if n[0] == "super":
             return True
-        if n[0] == "for" and has_super_outside_block(n[1]):
+        if n[0] in WRAPPERS and has_super_outside_block(n[1]):
             return True
     return False
 
@@ -125,6 +147,7 @@ class _Resolver:
         self.blocks_resolved = 0
         self.overridden_resolved = 0
         self.super_into_required = 0
+        self.empty_rendered = 0
 
     def render(self, nodes: Any, ctx: Optional[tuple[str, int]], loopval: Optional[str], sdepth: int) -> str:
         out: list[str] = []
@@ -142,6 +165,8 @@ class _Resolver:
             elif k == "for":
                 for item in LOOP_ITEMS:
                     out.append(self.render(n[1], ctx, item, sdepth))
+            elif k in ("if", "unless", "case"):
+                out.append(self.render(n[1], ctx, loopval, sdepth))
             elif k == "block":
                 out.append(self.block(n[1], ctx))
             elif k == "super":
@@ -155,9 +180,15 @@ class _Resolver:
         if key in self.active:
             self.unspecified.append("resolution-re-enters-active-definition")
             return ""
+        body = self.defs[name][j][1][3]
+        if whitespace_only(body):
+            self.unspecified.append("whitespace-only-definition-rendered")
+            return ""
+        if not body:
+            self.empty_rendered += 1
         self.active.append(key)
         try:
-            return self.render(self.defs[name][j][1][3], key, None, sdepth)
+            return self.render(body, key, None, sdepth)
         finally:
             self.active.pop()
 
@@ -247,6 +278,7 @@ def expected(prog: Any) -> dict[str, Any]:
         blocks_resolved=r.blocks_resolved,
         overridden_resolved=r.overridden_resolved,
         super_into_required=r.super_into_required,
+        empty_rendered=r.empty_rendered,
         names_defined_twice=sum(1 for d in r.defs.values() if len(d) > 1),
     )
     if r.unspecified:
